@@ -36,7 +36,7 @@ def run(rep):
     recs, cases = [], []
     for b in range(n):
         kind = ['generic', 'identical', 'mass', 'onedim', 'parts'][b % 5]
-        fam = 'cubic' if kind == 'onedim' else fams[b % 6]
+        fam = 'cubic' if kind == 'onedim' else fams[b % len(fams)]
         orient = 'chol' if kind == 'onedim' else ['chol', 'pmg', 'rot'][b % 3]
         T, A = int(rng.integers(4, 25)), int(rng.integers(1, 5))
         species = ['Li'] * A
